@@ -185,6 +185,10 @@ where
             let trimmed = v.trim();
 
             match trimmed.strip_prefix('+') {
+                // The sign is already consumed, the integer parser must not accept a second one.
+                Some(without) if without.starts_with('+') => {
+                    Err(E::custom("invalid digit found in string"))
+                }
                 Some(without) => without.parse::<UInt>().map(|u| u.into()).map_err(E::custom),
                 None => trimmed.parse().map_err(E::custom),
             }
